@@ -49,7 +49,9 @@ func c14Menu(initial int) []c14Doc {
 		{Name: "V-new-scalar", SDL: "scalar Day\n"},
 		{Name: "V-directive-def-and-use", SDL: "directive @nd(k: Int = 1) on OBJECT\ntype N2 @nd(k: 2) { y: Int }\n"},
 		// a directive use whose argument is an input object: validation coerces such values (and fills defaults in)
-		{Name: "V-directive-with-input-object-argument", SDL: "directive @cfg(opt: Opt, opts: [Opt]) on OBJECT\ninput Opt { a: Int }\ntype Cfgd @cfg(opt: {a: 1}, opts: [{a: 2}]) { x: Int }\n"},
+		{Name: "V-directive-with-input-object-argument", SDL: "directive @cfg(opt: Opt, opts: [Opt]) on OBJECT\ninput Opt { a: Int }\ntype Cfgd @cfg(opt: {a: 1}, opts: [{a: 2}]) { x: Int }\n" +
+			// and a directive whose argument DEFAULTS are input objects (coerced, defaults filled in, when the definition is validated)
+			"directive @dfl(opt: Opt = {a: 7}, opts: [Opt] = [{}]) on OBJECT\n"},
 	}
 	if initial == 1 {
 		valid = append(valid,
@@ -142,7 +144,7 @@ func c14Menu(initial int) []c14Doc {
 	return out
 }
 
-var c14DirNames = []string{"tag", "onschema", "nd", "pd", "any", "inner", "cfg", "pd2"}
+var c14DirNames = []string{"tag", "onschema", "nd", "pd", "any", "inner", "cfg", "pd2", "dfl"}
 
 // c14Observe reads every observable of the root.
 func c14Observe(root *ggql.Root) (string, *core.PanicInfo) {
